@@ -13,6 +13,8 @@ import Driver.PickCmd
 import Driver.BuilderCmd
 import Driver.PotentialCmd
 import Driver.ScoreCmd
+import Driver.GroupCmd
+import Driver.SeekCmd
 /-
 `raindrv`: one request per line on stdin, one answer per line on stdout.
 Unknown or malformed requests answer `bad-request` (never a default value).
@@ -39,6 +41,8 @@ def dispatch (toks : List String) : String :=
       else if cmd.startsWith "pick." then pickCmd toks
       else if cmd.startsWith "builder." then builderCmd toks
       else if cmd.startsWith "score." then scoreCmd toks
+      else if cmd.startsWith "group." then groupCmd toks
+      else if cmd.startsWith "seek." then seekCmd toks
       else none
     match r with
     | some s => s
